@@ -16,6 +16,13 @@ CLAIMS["C15"] = {
     "technique": "static analysis: interval abstract interpretation of writer/reader pairs, constant-relation checks, literal-table injectivity, sibling normal-form comparison",
 }
 
+CLAIMS["C16"] = {
+    "decides": "no iteration over an inferred unordered container (sets, set algebra, dict-view algebra, set-typed attributes) feeds an order-sensitive consumer outside an audited table whose reasons are re-checked; inventory of clock/environment/cwd/random/mtime reads equals the audited table and the clock is read in compile paths only under recalcTimestamp with SOURCE_DATE_EPOCH honoured first; every attribute stored on self by compile/preWrite/toXML/write methods is audited, temporary fields are restored on all exits; compile/dump code branches on lazy/isLoaded only at audited sites and pass-through returns reader bytes; subtable interning and gathering iterate ordered sequences.",
+    "design_ref": "DESIGN.md §3.4 F11-F13, §4 C16",
+    "note": "Trusted: set-type inference is name/attribute based and flow-insensitive (sets reaching a site through untyped parameters are not seen); audit tables in sa/rules/determinism.py. Not decided: byte equality across processes, float formatting stability.",
+    "technique": "static analysis: type inference for unordered containers + consumer classification, ambient-input inventory, effect (self-store) audit, CFG dominance for guards and restores",
+}
+
 _PENDING = "check not built yet in this round (planned structural clauses in DESIGN.md §4); not claimed until its check exists"
 NOT_APPLICABLE = {
     "C05": "numeric equality of outlines/advances with independent rasterisers at every location: runtime values only; no structural clause that is a necessary condition and survives refactoring (DESIGN §4 C05)",
@@ -23,5 +30,5 @@ NOT_APPLICABLE = {
     "C14": "geometric equality through pen adapters over all call sequences: adapters may legally buffer/merge/re-emit calls, so no forwarding-shape rule is both necessary and refactoring-stable (DESIGN §4 C14)",
     "C18": "rendering equivalence of merged fonts: only weak structural facts (first-writer-wins cmap guard) exist, not enough for a necessary-condition clause (DESIGN §4 C18)",
 }
-for _p in ("C01", "C02", "C03", "C04", "C06", "C07", "C08", "C10", "C11", "C12", "C13", "C16", "C17", "C19"):
+for _p in ("C01", "C02", "C03", "C04", "C06", "C07", "C08", "C10", "C11", "C12", "C13", "C17", "C19"):
     NOT_APPLICABLE[_p] = _PENDING
